@@ -1,6 +1,7 @@
 """C14 — separate compilation is equivalent to whole-program compilation.
 
-proof:   lean/GomlVerif/Props/C14.lean over Model/Sem.lean (run_perm_invariant, run_alpha_invariant_partial) and
+proof:   lean/GomlVerif/Props/C14.lean over Model/Sem.lean (run_perm_invariant, run_alpha_invariant — closures included,
+         by a relation on values —, separate_eq_whole_validated) and
          Model/Link.lean (check_build_same_interface)
 tie:     the real Core of both ways, fed to `gomlmodel c14`: the separate Core must be the whole-program Core up to
          the order of the functions and a per-function renaming of bound names (the driver finds the renaming and
@@ -8,7 +9,9 @@ tie:     the real Core of both ways, fed to `gomlmodel c14`: the separate Core m
 oracle:  model-free — every project is compiled whole and separately in every topological order with artefacts
          round-tripped through their JSON files; acceptance must agree (same stage when rejected), the Go ASTs of both
          ways must behave alike under Go.Sem, the linked Cores alike under Sem, Go validity (Go.Check) must agree, and
-         check_package / build_package must write the same interface bytes
+         check_package / build_package must write the same interface bytes, and the exports of every built package read
+         back from the .interface JSON text must equal what was written (Debug rendering of exports / to_genv() /
+         hir_interface, compact JSON, recomputed hash)
 """
 import collections, json, os, re, subprocess
 import vlib
@@ -36,6 +39,10 @@ def collect(ctx):
             d["sep"].append(r[2:])
         elif k == "IFACE":
             d["iface"].append(r[2:])
+        elif k == "GENV":
+            d.setdefault("genv", []).append(r[2:])
+        elif k == "RT":
+            d.setdefault("rt", []).append(r[2:])
     return progs
 
 
@@ -191,10 +198,68 @@ def run(ctx):
                 ctx.report({"oracle": "check-vs-build", "kind": row[2]},
                            f"check_package and build_package disagree on package {row[1]} (order #{row[0]}): {row[2]}", payload)
 
+    # ---- exports -> interface JSON -> exports is the identity on what an importer's typer reads (every built package,
+    #      accepted or not as a whole project)
+    n_rt = n_rt_same = n_rt_nonempty = 0
+    rt_entries = collections.Counter()
+    for pid, d in progs.items():
+        for row in d.get("rt", []):
+            n_rt += 1
+            n_rt_nonempty += row[3] != "0"
+            rt_entries[min(int(row[3]), 10)] += 1
+            if row[2] == "same":
+                n_rt_same += 1
+            else:
+                ctx.report({"oracle": "exports-roundtrip", "kind": row[2].split(":")[0]},
+                           f"the exports of package {row[1]} (order #{row[0]}) are not what an importer reads back from the .interface JSON: {row[2]}",
+                           {"id": pid, "src": d.get("src", "")[:6000], "package": row[1], "verdict": row[2]})
+
+    # ---- tie (link environment): the genv of both ways is Exports.applyAll of the packages' exports, lookup for lookup;
+    #      the hypotheses of link_env_order_irrelevant (distinct keys per export map, no key exported twice differently) hold
+    g0 = next((row[1] for row in progs.get("genv0", {}).get("genv", []) if row[0] == "0"), None)
+    env_lines, n_env = [], 0
+    if g0 is None and any("genv" in d for pid, d in progs.items() if pid != "genv0"):
+        ctx.broken_ties.append(("harness", "no GENV 0 row (GlobalTypeEnv::new())"))
+    for pid, d in progs.items():
+        if pid == "genv0" or g0 is None:
+            continue
+        wrow = next((row[1] for row in d.get("genv", []) if row[0] == "w"), None)
+        for row in d.get("genv", []):
+            if row[0] == "s" and wrow is not None:
+                # row[2] = ((pkg env)…) sep-genv
+                inner = row[2][1:-1]
+                depth, cut = 0, None
+                for i, ch in enumerate(inner):
+                    depth += ch == "("
+                    depth -= ch == ")"
+                    if depth == 0 and ch == ")":
+                        cut = i + 1
+                        break
+                pkgs, sep = inner[:cut], inner[cut:].strip()
+                env_lines.append(f"{pid}|env{row[1]}\t(linkenv {g0} {pkgs} {sep} {wrow})")
+    env_res = run_model(ctx, env_lines) if env_lines else {}
+    n_env_ok = n_env_same_order = 0
+    env_keys = collections.Counter()
+    for l in env_lines:
+        key = l.split("\t", 1)[0]
+        r = env_res.get(key)
+        n_env += 1
+        if not r or r[0] != "linkenv":
+            ctx.broken_ties.append(("model driver c14 (linkenv)", f"{key}: {r}"))
+        elif r[1] == "ok":
+            n_env_ok += 1
+            n_env_same_order += "same-iteration-order-as-separate=true" in r
+            pk = next((int(f.split("=")[1]) for f in r if f.startswith("pkgkeys=")), 0)
+            env_keys["0" if pk == 0 else "1-5" if pk <= 5 else "6-20" if pk <= 20 else ">20"] += 1
+        else:
+            ctx.broken_ties.append(("link environment ≠ Exports.applyAll of the packages' exports (or a hypothesis of link_env_order_irrelevant fails)",
+                                    f"{key}: {r[1:5]}"))
+
     # ---- tie: the two Cores differ only by function order and per-function renaming of bound names
     res = run_model(ctx, equiv_lines) if equiv_lines else {}
-    n_eq = n_eq_ok = n_in_fragment = 0
+    n_eq = n_eq_ok = n_in_fragment = n_verified_with_closures = 0
     why = collections.Counter()
+    outside, outside_samples = collections.Counter(), []
     for key, (pid, order) in equiv_meta.items():
         r = res.get(key)
         n_eq += 1
@@ -203,11 +268,19 @@ def run(ctx):
             continue
         if r[0] == "equiv":
             n_eq_ok += 1
-            n_in_fragment += r[1] == "closure-free"
+            if r[1] == "verified":
+                n_in_fragment += 1
+                n_verified_with_closures += any(f.startswith("with-closures=") and f != "with-closures=0" for f in r[2:])
+            else:
+                outside[r[2] if len(r) > 2 else "?"] += 1
+                if len(outside_samples) < 5:
+                    outside_samples.append({"pair": key, "why": r[2:]})
         else:
             why[r[1] if len(r) > 1 else r[0]] += 1
             ctx.broken_ties.append(("separate Core ≠ whole Core up to function order and bound-name renaming", f"{pid} order {order}: {r[:3]}"))
 
+    if outside:
+        ctx.notes.append(f"{sum(outside.values())} of {n_eq} Core pairs are outside the verified fragment (validate rejects, the structural comparison accepts): {dict(outside)}")
     ctx.violations.sort(key=lambda v: len(v[2].get("src") or "x" * 10**6))
     if ctx.replay:
         try:
@@ -226,15 +299,24 @@ def run(ctx):
         "behaviour_comparisons(distinct separate Go per project)": {"checked": n_beh, "same_as_whole(Go.Sem, Sem, Go.Check)": n_beh_ok},
         "go_text": {"separate_equal_to_whole": n_text_equal, "differs(only order/temporaries, see tie)": n_text_differs},
         "check_vs_build_interface": {"packages_checked": n_iface, "same_bytes": n_iface_same},
-        "tie_core_equivalence": {"pairs": n_eq, "equal_up_to_order_and_renaming": n_eq_ok, "of_which_closure_free(run_alpha_invariant_partial applies)": n_in_fragment,
+        "tie_link_environment": {"pairs(project x link order, <= 2 per project)": n_env, "model_agrees_with_both_ways_on_every_lookup": n_env_ok,
+                                 "of_which_same_iteration_order_as_the_separate_link": n_env_same_order,
+                                 "keys_exported_by_the_packages_themselves(builtins not counted)_per_project": dict(env_keys)},
+        "exports_roundtrip_through_interface_json": {"packages": n_rt, "identity": n_rt_same, "with_at_least_one_export_of_its_own": n_rt_nonempty,
+                                                     "own_exported_entries_per_package(builtins not counted; capped at 10)": {str(k): v for k, v in sorted(rt_entries.items())}},
+        "tie_core_equivalence": {"pairs": n_eq, "equal_up_to_order_and_renaming": n_eq_ok, "inside_verified_fragment(separate_eq_whole_validated applies)": n_in_fragment,
+                                 "of_which_with_closure_expressions": n_verified_with_closures,
+                                 "outside(only the unverified structural comparison accepts), by reason": dict(outside),
+                                 "outside_samples": outside_samples,
                                  "failures": dict(why)},
-        "model_diffs": n_eq - n_eq_ok,
+        "model_diffs": (n_eq - n_eq_ok) + (n_env - n_env_ok),
         "impl_oracle_failures": len(ctx.violations) + sum(h["count"] for h in ctx.known_hits),
         "samples": samples,
     }
     ctx.assumptions += [
         "behaviour is judged under Sem / Go.Sem (no Go toolchain); goroutines under the eager schedule",
-        "run_alpha_invariant_partial covers Core without closure expressions; for programs with closures the equality of behaviour is observed, not proved",
+        "separate_eq_whole_validated / run_alpha_invariant cover Core with closure expressions (value relation Alpha.VRel); a pair outside the verified "
+        "fragment (coverage.tie_core_equivalence.outside…) is compared structurally only and its equality of behaviour is observed, not proved",
         "templates (harness/src/c14.rs::templates): types-only / trait-only / extern-only / empty packages, nesting depth 60 / 200 (1000 in the thorough tier) "
         "of lets, ifs and parentheses, the same function / type / trait name in two files of a package, self-imports and import cycles (the separate builds "
         "then run in an order read off the import lines), a main.gom that is not the first file; nested calls only to depth 10 (compile time doubles per level, both ways)",
